@@ -183,7 +183,7 @@ func c09MiscSpecs() []*edt.Spec {
 		},
 		{
 			Pkg: "primitives/ed25519", Func: "(*BatchVerifier).Reset", SymLoops: true, MinPaths: 2,
-			Abbrev: [][2]string{{"(φL0.0 + 1)", "LJ"}},
+			Abbrev: [][2]string{{"φL0.0", "LJ"}},
 			Vars:   batchVars,
 			Classify: func(p *edt.Path, out string, e *edt.Env) string {
 				switch {
@@ -214,7 +214,7 @@ func c09MiscSpecs() []*edt.Spec {
 		{
 			Pkg: "primitives/ed25519", Func: "(*BatchVerifier).VerifyBatchOnly", SymLoops: true, MinPaths: 5,
 			Abbrev: [][2]string{}, Vars: batchVars,
-			Ignore: []string{"((φL", "isnil(err(scalar128.NewGenerator", "isnil(err(Generator.SetScalarVartime("},
+			Ignore: []string{"((φL", "(φL", "isnil(err(scalar128.NewGenerator", "isnil(err(Generator.SetScalarVartime("},
 			Classify: func(p *edt.Path, out string, e *edt.Env) string {
 				switch {
 				case out == "false":
